@@ -6,6 +6,7 @@ package scen
 import (
 	"context"
 	"fmt"
+	"math"
 	"net/http"
 	"net/http/httptest"
 	"os"
@@ -378,6 +379,42 @@ type Rev struct {
 	Big     func(context.Context, string) (int, error)
 	Ident   func(context.Context, int) (int, error)
 	Aliased func(context.Context, int) (int, error) `rpc_method:"rev.alias"`
+	Absent  func(int)                               `notify:"true"` // no client handler has this method
+}
+
+// SubOdd streams floats; every third element is one encoding/json refuses (NaN, ±Inf): the forwarder
+// cannot marshal it and must drop it whole.
+func (h *SH) SubOdd(ctx context.Context, tok int, n int) (<-chan float64, error) {
+	h.C.enter(ctx, "SubOdd", tok)
+	out := make(chan float64)
+	go func() {
+		defer close(out)
+		odd := []float64{math.NaN(), math.Inf(1), math.Inf(-1)}
+		for i := 0; i < n; i++ {
+			v := float64(tok*1000 + i)
+			if i%3 == 1 {
+				v = odd[(i/3)%3]
+			}
+			select {
+			case out <- v:
+			case <-ctx.Done():
+				return
+			}
+		}
+	}()
+	return out, nil
+}
+
+// Boom panics; NotifyAbsent sends the calling client a notification for a method it does not handle.
+func (h *SH) Boom(tok int) { panic(fmt.Sprintf("boom %d", tok)) }
+
+func (h *SH) NotifyAbsent(ctx context.Context, tok int) (int, error) {
+	rc, ok := jsonrpc.ExtractReverseClient[Rev](ctx)
+	if !ok {
+		return -1, nil
+	}
+	rc.Absent(tok)
+	return tok, nil
 }
 
 // CallBack calls back into the calling client and returns what it answered.
@@ -410,6 +447,10 @@ type CL struct {
 	BlockBig      func(context.Context, int, int) (string, error)
 	NoteBlock     func(int) `notify:"true"`
 	CallBackBlock func(context.Context, int) (int, error)
+	SubOdd        func(context.Context, int, int) (<-chan float64, error)
+	Boom          func(int) `notify:"true"`
+	Missing       func(int) `notify:"true"` // the server has no such method
+	NotifyAbsent  func(context.Context, int) (int, error)
 }
 
 // RevH is the handler a client registers for reverse calls.
@@ -509,6 +550,21 @@ func WithTimeout(d time.Duration, f func()) bool {
 	case <-time.After(d):
 		return false
 	}
+}
+
+// WarmUp runs a scenario's opening call.  With keepalive timeouts of a few tens of milliseconds a starved
+// process can lose the very first connection before the call is answered (the client then redials); the
+// opening call only establishes that the link works before the fault under study is injected, so it is
+// retried a few times and counts as failed only if it never succeeds.
+func WarmUp(call func() error) error {
+	var err error
+	for i := 0; i < 6; i++ {
+		if err = call(); err == nil {
+			return nil
+		}
+		time.Sleep(time.Duration(20*(i+1)) * time.Millisecond)
+	}
+	return err
 }
 
 // LagProbe measures how late this process's goroutines are being scheduled while a timing-sensitive
